@@ -1184,13 +1184,13 @@ def run(ctx):
     ctx.reserve(0.88)
     try:
         for i in range(OVERLAPS[ctx.tier]):
-            if ctx.expired():
+            if i >= 2 and ctx.expired():        # a guaranteed minimum: the fixed-size strata above may have used the budget up
                 break
             check_overlap(ctx, gen_overlap(ctx, i))
         ctx.release()
         ctx.stratum('reload', exhaustive=False)
         for i in range(RELOADS[ctx.tier]):
-            if ctx.expired():
+            if i >= 1 and ctx.expired():
                 break
             r = ctx.sub_rnd('R', ctx.tier, ctx.shard, i)
             old, new = RELOAD_SETS[(i + ctx.shard) % len(RELOAD_SETS)]
